@@ -65,6 +65,8 @@ def parseOp (line : String) : Option Op :=
   | ["srange", a, b, c, w] => do some (.srange (← n? a) (← n? b) (← n? c) w)
   | ["inp", a, b, c] => do some (.inp (← n? a) (← n? b) (← n? c))
   | ["input"] => some .input
+  | ["rest", w] => some (.rest w)
+  | ["resto", w] => some (.resto w)
   | ["clones", a] => do some (.clones (← n? a))
   | ["unclone", a] => do some (.unclone (← n? a))
   | _ => none
@@ -102,6 +104,8 @@ def unitOnly : Op → Bool
 def lpcOnly : Op → Bool
   | .err _ _ => true
   | .efun _ _ _ => true
+  | .rest _ => true
+  | .resto _ => true
   | .srange _ _ _ _ => true
   | _ => false
 
